@@ -1,10 +1,18 @@
 """Configuration of ./check C16 (see lib/registry.py for the fields)."""
 CFG = dict(
-    claim="Theorems C16_accounting, C16_route, C16_drop_only_when_full, C16_no_loss, C16_source_order, C16_dial_once in "
-          "coq/Props/C16.v over all label sequences of the small-step model coq/Model/Proxy.v (any number of peers, envelopes, "
-          "faults; any interleaving; any interceptor function); the model is run lock-step against the real goat.Proxy on every run.",
+    claim="Theorems C16_accounting (what a connection is handed is, in order and once each, a prefix of what was enqueued for it), C16_route "
+          "(every accepted envelope passed the source check, went to the record named by the rewritten destination / last return-route hop, "
+          "unchanged but for the routing fields, own name appended to the route record exactly once, return route popped), "
+          "C16_drop_only_when_full, C16_no_loss (nothing is lost while no envelope finds the buffer full), C16_source_order, C16_pair_order "
+          "(order per source-destination pair), C16_dial_once in coq/Props/C16.v over all label sequences of the small-step model "
+          "coq/Model/Proxy.v (any number of peers, envelopes, faults; any interleaving; any interceptor function). The unconditional clause "
+          "(a relayed stream is never reported complete with messages missing) is refuted: C16_complete_means_complete_refuted, finding "
+          "proxy-overflow>buf (D-16). The end-to-end clause (RPCs through the proxy complete as on a direct connection) is checked on the "
+          "real code only (clients - Proxy - Demux - Servers against direct connections), not stated as a refinement theorem. The model is "
+          "run lock-step against the real goat.Proxy on every run.",
     props="Props/C16.v",
-    theorems=["C16_accounting", "C16_route", "C16_drop_only_when_full", "C16_no_loss", "C16_source_order", "C16_dial_once"],
+    theorems=["C16_accounting", "C16_route", "C16_drop_only_when_full", "C16_no_loss", "C16_source_order", "C16_pair_order",
+              "C16_dial_once", "C16_complete_means_complete_refuted"],
     imports=["Model.Proxy", "Check.C16c"],
     case_type="pxcase",
     find_bad_from="find_bad_from",
@@ -16,7 +24,18 @@ CFG = dict(
                  "4": "the per-destination buffer measured on the running code is smaller than the 12 outstanding envelopes the property presupposes",
                  "5": "dial: newConnection was called for a name that had a live record (or twice), or an accepted envelope for a name without record did not make the proxy dial",
                  "6": "end-to-end: an RPC through the real Proxy ended differently from the same RPC on a direct connection"},
-    rule="lock-step in synctest bubbles on the real goat.Proxy with scripted peer transports",
+    rule="lock-step in synctest bubbles on the real goat.Proxy with scripted peer transports (one group of actions, synctest.Wait, snapshot: "
+         "envelopes handed to every connection with whole-envelope comparison modulo routing fields, newConnection calls, disconnect "
+         "callbacks, table of names, goroutines by role from runtime.Stack, proxy.drop counter, panics), compared with every outcome of the "
+         "model over all orders of its internal rules: ALL words of <= 3 (thorough 4) envelopes from 2 attached peers to attached / dialable / "
+         "unknown / slow-to-dial names, ALL words of <= 2 from 3 peers under the prefix-strip rewrite, ALL interleavings of <= 6 envelopes from "
+         "<= 3 peers (5 plans; sequential and with concurrent senders), bursts of 12/16/17/18/40 to a destination whose writer is blocked / "
+         "whose dial is slow / free, from 1 or 2 sources, 6 interceptors (identity, constant, prefix strip, reject destination, reject "
+         "source, none) x return routes (nil, empty, 1 hop, 2 hops, to dialable, to unknown) x route records, seeded random walks with and "
+         "without faults; the buffer size is measured on the running code; end-to-end: 1..8 real clients - real Proxy - real Demux keyed by "
+         "source - 1..4 real Servers (pre-attached / dialled on demand, 3 rewrites), unary + bidi + client-stream + server-stream RPCs with <= 12 "
+         "envelopes outstanding per destination, compared with the direct-connection outcomes; free-running stress (3..10 peers, one goroutine "
+         "per sender, paced and bursting) judged by the delivery predicates",
     assumptions=["payloads are opaque to the proxy (tokens; the rig compares whole envelopes modulo routing fields)",
                  "peer transports return queued envelopes in order; quiescence = testing/synctest's durable blocking; goroutine roles are read from runtime.Stack frames"],
 )
